@@ -346,14 +346,21 @@ class BehavioralRTLIRToVVisitorL1( bir.BehavioralRTLIRNodeVisitor ):
 
       # Manipulate the slicing string to avoid indexing on a sliced signal
       if not _one_bit:
+        if '+:' in value:
+          # a[i +: 2] has no [msb:lsb] form to take the sign bit from
+          return f"{target_nbits}'($signed({value}))"
         l, col, r = value.rfind('['), value.rfind(':'), value.rfind(']')
         if -1 < l < col < r:
           _value = value[:col] + ']'
           return one_bit_template.format( **locals() )
 
     elif isinstance( node.value, bir.Index ):
-      # Indexing a signal selects one bit; indexing an array selects an element
-      _one_bit = not isinstance( node.value.value.Type, rt.Array )
+      # Indexing a signal selects one bit; indexing an array (also a packed
+      # array field of a struct) selects an element
+      _base_type = node.value.value.Type
+      if isinstance( _base_type, rt.Signal ) and _base_type.is_packed_indexable():
+        return f"{target_nbits}'($signed({value}))"
+      _one_bit = not isinstance( _base_type, rt.Array )
     elif not isinstance( node.value, ( bir.Attribute, bir.LoopVar, bir.TmpVar ) ):
       # The sign bit of a constant or of a compound expression cannot be
       # selected with [msb]; let a signed cast do the extension instead
